@@ -184,3 +184,28 @@ Proof.
   unfold deregister_remote. rewrite Hf. rewrite Q3. cbn [exec_ucalls fst snd app].
   split; [reflexivity|]. unfold with_remotes. cbn [remotes]. apply find_remove_same'.
 Qed.
+
+(* ---- C03: a failed connect yields Connected(_, false) and nothing else; a failed inbound handshake
+   yields no event at all; either way the resource is gone ---- *)
+Theorem failed_pending_events s id rd a p :
+  resource_type gen_layout id = Remote -> find_remote id (remotes s) = Some p -> r_ready p = false ->
+  a_pending a = PDisconnected -> quiet a ->
+  snd (process s id rd a) = match r_local p with None => [OEv (Connected (id, r_peer p) false)] | Some _ => [] end /\
+  find_remote id (remotes (fst (process s id rd a))) = None.
+Proof.
+  intros Ht Hf Hr Hp (Q0 & Q1 & Q2 & Q3 & Q4). unfold process. rewrite Ht, Hf, Q0. cbn [exec_ucalls].
+  unfold resolve_pending. rewrite Hr, Hp. unfold deregister_remote. rewrite Hf.
+  destruct (r_local p) as [l|].
+  - cbn [app fst snd]. split; [reflexivity|]. unfold with_remotes. cbn [remotes]. apply find_remove_same'.
+  - rewrite Q1. cbn [exec_ucalls app fst snd]. split; [reflexivity|]. unfold with_remotes. cbn [remotes]. apply find_remove_same'.
+Qed.
+
+(* a pending connection whose adapter answers Incomplete stays silent and pending *)
+Theorem incomplete_pending_silent s id rd a p :
+  resource_type gen_layout id = Remote -> find_remote id (remotes s) = Some p -> r_ready p = false ->
+  a_pending a = PIncomplete -> quiet a ->
+  process s id rd a = (s, []).
+Proof.
+  intros Ht Hf Hr Hp (Q0 & Q1 & Q2 & Q3 & Q4). unfold process. rewrite Ht, Hf, Q0. cbn [exec_ucalls].
+  unfold resolve_pending. rewrite Hr, Hp. reflexivity.
+Qed.
